@@ -21,9 +21,20 @@ pub struct Emit {
     pub nontrivial: Vec<u64>,
     pub stats: std::collections::BTreeMap<String, u64>,
     next: u64,
+    /// the case being evaluated, rewritten before every evaluation: what an abort (which no catch_unwind sees) was working on
+    cur: Option<std::fs::File>,
 }
 impl Emit {
     pub fn case(&mut self, op: &str, args: &[String]) {
+        if let Some(f) = &mut self.cur {
+            use std::io::{Seek, SeekFrom};
+            let mut l = String::from(op);
+            for a in args { l.push('\t'); l.push_str(a); }
+            l.push('\n');
+            let _ = f.seek(SeekFrom::Start(0));
+            let _ = f.set_len(0);
+            let _ = f.write_all(l.as_bytes());
+        }
         let res = eval_caught(op, &args.iter().map(|s| s.as_str()).collect::<Vec<_>>());
         self.next += 1;
         let mut l = format!("{}\t{}", self.next, op);
@@ -57,7 +68,7 @@ fn main() {
             let tier = &argv[3];
             let seed: u64 = argv[4].parse().expect("seed");
             let out = &argv[5];
-            let mut em = Emit { lines: vec![], nontrivial: vec![], stats: Default::default(), next: 0 };
+            let mut em = Emit { lines: vec![], nontrivial: vec![], stats: Default::default(), next: 0, cur: std::fs::File::create(format!("{}.cur", out)).ok() };
             let mut rng = rng::Rng::new(seed);
             ops::generate(prop, tier == "thorough", &mut rng, &mut em);
             let mut f = std::io::BufWriter::new(std::fs::File::create(out).expect("create"));
